@@ -104,6 +104,7 @@ fn start_watchdog() {
 
 fn batch(args: &[String]) {
     start_watchdog();
+    simkit::abort::install();
     let prop = arg(args, "--prop").expect("--prop");
     let seed: u64 = arg(args, "--seed").and_then(|s| s.parse().ok()).unwrap_or(1);
     let worker: u64 = arg(args, "--worker").and_then(|s| s.parse().ok()).unwrap_or(0);
@@ -161,9 +162,14 @@ fn batch(args: &[String]) {
             };
             *CURRENT_RUN.lock().unwrap() =
                 Some((Instant::now(), serde_json::json!({"type": "failure", "i": i, "replay": rf}).to_string()));
+            let mut rf = rf;
+            rf.class = "abort".into();
+            rf.message = "the process was aborted during this run (a panic that cannot unwind, or abort() inside the code under test)".into();
+            simkit::abort::set_line(Some(serde_json::json!({"type": "failure", "i": i, "replay": rf}).to_string()));
         }
         let out = run(&prop, &sc, None);
         *CURRENT_RUN.lock().unwrap() = None;
+        simkit::abort::set_line(None);
         runs += 1;
         let sh = simkit::fnv(&serde_json::to_vec(&sc).unwrap());
         if out.nontrivial {
@@ -233,9 +239,16 @@ fn replay_cmd(args: &[String]) -> i32 {
             std::process::exit(if reproduced { 0 } else { 3 });
         });
     }
+    simkit::abort::install();
+    simkit::abort::set_line(Some(
+        serde_json::json!({"type": "replay", "file": path, "expected_class": rf.class, "class": "abort",
+            "message": "the process was aborted during the replay", "known": null, "reproduced": rf.class == "abort"})
+        .to_string(),
+    ));
     // the schedule is a function of the scenario's seed; the recorded choices
     // are replayed when present
     let out = run(&rf.property, &rf.scenario, rf.choices.clone());
+    simkit::abort::set_line(None);
     let (class, msg, known) = match &out.failure {
         Some(f) => f.clone(),
         None => ("none".into(), String::new(), None),
